@@ -294,6 +294,9 @@ func KeyspaceCmd(t *rapid.T, ns Names) []string {
 			jp = jsetPaths[:4]
 		}
 		args := []string{"JSET", k(), id(), pick(t, "path", jp)}
+		if rapid.IntRange(0, 11).Draw(t, "jemptypath") == 0 {
+			args[3] = "" // refused: must leave no trace, also on a missing collection
+		}
 		vals := []string{"hello", "12", "1.50", "true", "null", "x y", `{"q":1}`, "-3e2", "é"}
 		v := pick(t, "jval", vals)
 		args = append(args, v)
